@@ -220,3 +220,45 @@ def kill_batch(acc, batch, prop=None):
         if not ok:
             acc.violation(sig=dict(what="a process of the task keeps running after cancel/time-out" if obs["left"] else "real kill scenario: wrong final state", tier="real", how=how),
                           case=case, observed=obs, msg=f"script {KILL_SCRIPTS[kind]!r}, {how}: afterwards still running: {obs['left']}; state {obs['state']}")
+
+
+async def _output_case(kind, workdir):
+    from gwf.backends import local
+
+    os.makedirs(os.path.join(workdir, ".gwf", "logs"), exist_ok=True)
+    sched = local.Scheduler(workdir, 1)
+    scripts = {
+        "big-stderr-first": "head -c 300000 /dev/zero | tr '\\0' e >&2; head -c 300000 /dev/zero | tr '\\0' o",
+        "big-stdout-first": "head -c 300000 /dev/zero | tr '\\0' o; head -c 300000 /dev/zero | tr '\\0' e >&2",
+        "interleaved": "for i in 1 2 3 4 5 6 7 8; do head -c 40000 /dev/zero | tr '\\0' o; head -c 40000 /dev/zero | tr '\\0' e >&2; done",
+        "small-nonzero": "echo out; echo err >&2; exit 3",
+    }
+    want = {"big-stderr-first": (300000, 300000, "COMPLETED"), "big-stdout-first": (300000, 300000, "COMPLETED"), "interleaved": (320000, 320000, "COMPLETED"), "small-nonzero": (4, 4, "FAILED")}[kind]
+    tid = await sched.enqueue_task(name="o", script=scripts[kind], working_dir=workdir, time_limit=20, deps=[])
+    await _settle(lambda: sched.tasks[tid].done(), timeout=25.0, quiet=0.1)
+    state = sched.task_states[tid].name
+    sizes = []
+    for ext in (".stdout", ".stderr"):
+        p = os.path.join(workdir, ".gwf", "logs", "o" + ext)
+        sizes.append(os.path.getsize(p) if os.path.exists(p) else None)
+    if not sched.tasks[tid].done():
+        sched.tasks[tid].cancel()
+        await asyncio.sleep(1.5)
+    return dict(state=state, stdout=sizes[0], stderr=sizes[1]), dict(state=want[2], stdout=want[0], stderr=want[1])
+
+
+def output_batch(acc, batch, prop=None):
+    from mc.runner import worker_scratch
+
+    for kind in batch:
+        d = tempfile.mkdtemp(dir=worker_scratch("real"))
+        try:
+            obs, want = asyncio.run(_output_case(kind, d))
+        finally:
+            shutil.rmtree(d, ignore_errors=True)
+        case = dict(kind="real-output", script=kind)
+        acc.case(key=json.dumps(case), outcome=f"output {kind} ok={obs == want}", sample=case)
+        acc.extra["real_processes"] += 1
+        if obs != want:
+            acc.violation(sig=dict(what="output of a task that ran to its end is not stored completely / wrong final state", tier="real"), case=case, expected=want, observed=obs,
+                          msg=f"script {kind}: observed {obs}, expected {want}")
